@@ -236,6 +236,114 @@ func paramSourcesD(v ssa.Value, seen map[ssa.Value]bool, out map[string]bool, de
 	}
 }
 
+// sameLocalCellRead: a (read for the instruction `from`) and b (read for the instruction `to`, which `from`
+// dominates) are two reads of the same variable of the function — the same field of the same local struct — and
+// the variable cannot have been written between the execution of `from` whose result is in use and `to`: the struct
+// is only used through its fields, as a whole-value read, and as the receiver or argument of calls; no store into
+// the field (or the whole struct) and no call that is given the struct's address lies on a way from `from` to `to`.
+func sameLocalCellRead(a, b ssa.Value, from, to ssa.Instruction) bool {
+	la, okA := a.(*ssa.UnOp)
+	lb, okB := b.(*ssa.UnOp)
+	if !okA || !okB || la.Op != token.MUL || lb.Op != token.MUL {
+		return false
+	}
+	fa, okA := la.X.(*ssa.FieldAddr)
+	fb, okB := lb.X.(*ssa.FieldAddr)
+	if !okA || !okB || fa.Field != fb.Field || fa.X != fb.X {
+		return false
+	}
+	al, isAl := fa.X.(*ssa.Alloc)
+	if !isAl || al.Parent() != from.Parent() || from.Parent() != to.Parent() || !flow.InstrDominates(from, to) {
+		return false
+	}
+	// the instructions that may write the field
+	var writers []ssa.Instruction
+	for _, ref := range ssau.Referrers(al) {
+		switch y := ref.(type) {
+		case *ssa.DebugRef:
+		case *ssa.FieldAddr:
+			for _, r2 := range ssau.Referrers(y) {
+				switch z := r2.(type) {
+				case *ssa.DebugRef:
+				case *ssa.UnOp:
+					if z.Op != token.MUL {
+						return false
+					}
+				case *ssa.Store:
+					if z.Addr != ssa.Value(y) || z.Val == ssa.Value(y) {
+						return false
+					}
+					if y.Field == fa.Field {
+						writers = append(writers, z)
+					}
+				default:
+					return false // the field's address is handed out
+				}
+			}
+		case *ssa.UnOp:
+			if y.Op != token.MUL {
+				return false
+			}
+		case *ssa.Store:
+			if y.Val == ssa.Value(al) || y.Addr != ssa.Value(al) {
+				return false
+			}
+			writers = append(writers, y)
+		case ssa.CallInstruction:
+			if _, isCall := y.(*ssa.Call); !isCall {
+				return false // go / defer: runs at an unknown time
+			}
+			writers = append(writers, y)
+		default:
+			return false // the address is kept somewhere (closure, struct, phi, ...)
+		}
+	}
+	// the reads themselves must sit between from and to as well: a after the last write before `from`, i.e. no
+	// writer between a and from either.
+	start := ssa.Instruction(la)
+	if !flow.InstrDominates(la, from) {
+		if !flow.InstrDominates(from, la) {
+			return false
+		}
+		start = from
+	}
+	if !flow.InstrDominates(start, lb) || !(lb == to || flow.InstrDominates(lb, to)) {
+		return false
+	}
+	// A writer is in the way when it can run after start and before to without start running again in between.
+	sb, tb := start.Block(), to.Block()
+	avoid := map[*ssa.BasicBlock]bool{sb: true}
+	after := flow.ReachableFrom(sb, avoid)
+	for _, w := range writers {
+		wb := w.Block()
+		switch {
+		case wb == sb && flow.Index(w) > flow.Index(start):
+			if tb == sb {
+				if flow.Index(w) < flow.Index(to) {
+					return false
+				}
+				continue // after to: the way back to `to` passes start
+			}
+		case wb != sb && after[wb]:
+			if tb == sb {
+				continue // the way to `to` passes start
+			}
+			if wb == tb && flow.Index(w) < flow.Index(to) {
+				return false
+			}
+		default:
+			continue // does not run after start
+		}
+		// leaving the writer's block, `to` is reached without passing the block of start
+		for _, s := range wb.Succs {
+			if s != sb && flow.Reachable(s, tb, avoid) {
+				return false
+			}
+		}
+	}
+	return true
+}
+
 func keysOf(m map[string]bool) string {
 	var ks []string
 	for k := range m {
@@ -302,7 +410,7 @@ func C01(c *Ctx) {
 					continue
 				}
 				lk, isLk := ex.Tuple.(*ssa.Lookup)
-				if isLk && lk.CommaOk && lk.X == mu.Map && lk.Index == mu.Key {
+				if isLk && lk.CommaOk && lk.X == mu.Map && (lk.Index == mu.Key || sameLocalCellRead(lk.Index, mu.Key, lk, mu)) {
 					absent = true
 				}
 			}
